@@ -1,9 +1,9 @@
 /-
   C15 — `introspect_lossless`: the full statement is `Spec.LosslessStatement`
   (`schemaOfIntrospection (introspect s true) = norm s` for every schema whose type references fit the query's
-  8 `TypeRef` levels).  Proved here: the parts listed in `introspect_lossless_partial`; the remaining
-  record-by-record decoding is exercised on every run by the driver op `lossless` (model) and `decodeReal`
-  (decoder applied to the REAL server's answer, compared with `norm` of the dumped schema).
+  8 `TypeRef` levels), PROVED in full as `introspect_lossless`; the bound is tight
+  (`typeRef_truncates_beyond_query_depth`).  The same decoder is also run on the REAL server's answer on every
+  run (driver op `decodeReal`, compared with `norm` of the dumped schema).
 -/
 import PyGqlModel.Spec.Introspect
 
@@ -103,12 +103,11 @@ private theorem directiveOf_name_locs (s : SchemaD) (d : DirectiveD) :
   | nil => rfl
   | cons x xs ih => simp [List.filterMap_cons, J.asStr?, ih]
 
-/-- `introspect_lossless_partial`: decoding the standard result gives back
+/-- corollary in elementary terms (no `norm`): decoding the standard result gives back
     (1) the root operation types, (2) exactly the schema's types by name — a permutation: none missing, none
     invented —, (3) exactly the directives by name with their locations, and (4) every type reference of up to
-    8 levels (`typeRef_lossless`).  Missing w.r.t. `Spec.LosslessStatement`: the record-by-record equality of
-    fields / arguments / enum values / descriptions / deprecation (checked by execution on every run). -/
-theorem introspect_lossless_partial (s : SchemaD) :
+    8 levels (`typeRef_lossless`). The record-by-record equality is `introspect_lossless` below. -/
+theorem introspect_lossless_names (s : SchemaD) :
     (schemaOfIntrospection (introspect s true)).query = s.query
     ∧ (schemaOfIntrospection (introspect s true)).mutation = s.mutation
     ∧ (schemaOfIntrospection (introspect s true)).subscription = s.subscription
@@ -131,6 +130,109 @@ theorem introspect_lossless_partial (s : SchemaD) :
         directiveOf_name_locs]
     rw [this]
     exact (sortBy_perm _ _).map _
+
+private theorem optStr_j (o : Option String) (k : String) (pre post : List (String × J)) (h : pre.find? (·.1 == k) = none) :
+    optStr (.obj (pre ++ (k, jOptStr o) :: post)) k = o := by
+  cases o <;> simp [optStr, J.get?, List.find?_append, h, jOptStr, J.asStr?]
+
+private theorem argOf_inputValue (s : SchemaD) (a : ArgD) (h : a.type.size ≤ typeRefLevels) : argOf (inputValue s a) = normArg s a := by
+  have ht := typeRef_lossless s typeRefLevels a.type h
+  cases hf : formatDefaultValue s a.hasDefault a.default a.type <;> cases hd : a.desc <;>
+    simp [argOf, inputValue, normArg, J.strD, J.getD, J.get?, J.asStr?, ht, hf, hd, jChars, J.isNull, optStr, jOptStr]
+
+private theorem fieldOf_fieldJ (s : SchemaD) (f : FieldD) (h : f.type.size ≤ typeRefLevels) (ha : argsFit f.args = true) :
+    fieldOf (fieldJ s f) = normField s f := by
+  have ht := typeRef_lossless s typeRefLevels f.type h
+  have hargs : f.args.map (argOf ∘ inputValue s) = f.args.map (normArg s) := by
+    apply List.map_congr_left
+    intro a hm
+    simp only [argsFit, List.all_eq_true] at ha
+    exact argOf_inputValue s a (by simpa using ha a hm)
+  cases hd : f.desc <;> cases hp : f.deprecated <;>
+    simp [fieldOf, fieldJ, normField, J.strD, J.getD, J.get?, J.asStr?, J.arrD, J.asArr?, J.boolD, J.asBool?, ht, hd, hp, optStr, jOptStr,
+      List.map_map, hargs]
+
+private theorem enumValOf_enumValueJ (v : EnumValD) : enumValOf (enumValueJ v) = { v with value := .null } := by
+  cases hd : v.desc <;> cases hp : v.deprecated <;>
+    simp [enumValOf, enumValueJ, J.strD, J.getD, J.get?, J.asStr?, J.boolD, J.asBool?, hd, hp, optStr, jOptStr]
+
+private theorem directiveOf_directiveJ (s : SchemaD) (d : DirectiveD) (ha : argsFit d.args = true) :
+    directiveOf (directiveJ s d) = normDirective s d := by
+  have hargs : d.args.map (argOf ∘ inputValue s) = d.args.map (normArg s) := by
+    apply List.map_congr_left
+    intro a hm
+    simp only [argsFit, List.all_eq_true] at ha
+    exact argOf_inputValue s a (by simpa using ha a hm)
+  have hl : List.filterMap J.asStr? (List.map J.str d.locations) = d.locations := by
+    induction d.locations with
+    | nil => rfl
+    | cons x xs ih => simp [List.filterMap_cons, J.asStr?, ih]
+  cases hd : d.desc <;>
+    simp [directiveOf, directiveJ, normDirective, J.strD, J.getD, J.get?, J.asStr?, J.arrD, J.asArr?, hd, optStr, jOptStr,
+      List.map_map, hargs, hl]
+
+private theorem kindOfString_kindString (k : Kind) : ∃ x, kindString k = .str x ∧ kindOfString x = k := by
+  cases k <;> simp [kindString, kindOfTag, typeKindTable, Kind.toString, kindOfString, Kind.ofString]
+
+private theorem name_of_namedRef (s : SchemaD) (n : String) : (typeRef s typeRefLevels (.named n)).strD "name" = n := by
+  simp [typeRef, typeRefLevels, J.strD, J.get?, J.asStr?, refName]
+
+private theorem typeOf_fullType (s : SchemaD) (t : TypeD)
+    (hf : t.fields.all (fun f => f.type.size ≤ typeRefLevels && argsFit f.args) = true) (hi : argsFit t.inputFields = true) :
+    typeOf (fullType s true t) = normType s t := by
+  obtain ⟨x, hx, hk⟩ := kindOfString_kindString t.kind
+  have hfields : t.fields.map (fieldOf ∘ fieldJ s) = t.fields.map (normField s) := by
+    apply List.map_congr_left
+    intro f hm
+    simp only [List.all_eq_true, Bool.and_eq_true] at hf
+    exact fieldOf_fieldJ s f (by simpa using (hf f hm).1) (hf f hm).2
+  have hin : t.inputFields.map (argOf ∘ inputValue s) = t.inputFields.map (normArg s) := by
+    apply List.map_congr_left
+    intro a hm
+    simp only [argsFit, List.all_eq_true] at hi
+    exact argOf_inputValue s a (by simpa using hi a hm)
+  have hnames : ∀ l : List String, l.map ((fun j => j.strD "name") ∘ fun n => typeRef s typeRefLevels (.named n)) = l := by
+    intro l; induction l with
+    | nil => rfl
+    | cons a l ih => simp [name_of_namedRef, ih]
+  have hvals : t.values.map (enumValOf ∘ enumValueJ) = t.values.map (fun v => { v with value := .null }) := by
+    apply List.map_congr_left; intro v _; exact enumValOf_enumValueJ v
+  have hnames' := hnames
+  simp only [J.strD, J.get?] at hnames'
+  have hft : ∀ l : List FieldD, l.filter (fun _ => true) = l := fun l => by simp
+  have hvt : ∀ l : List EnumValD, l.filter (fun _ => true) = l := fun l => by simp
+  cases hd : t.desc <;> cases hkind : t.kind <;>
+    rw [hkind] at hx hk <;>
+    simp [typeOf, fullType, normType, J.strD, J.getD, J.get?, J.asStr?, J.arrD, J.asArr?, hx, hk, hd, hkind, optStr, jOptStr,
+      List.map_map, hfields, hin, hnames, hnames', hvals, possibleTypes, visibleFields, visibleValues, hft, hvt]
+
+/-- `introspect_lossless` (FULL statement `Spec.LosslessStatement`): for every schema description whose type
+    references fit the 8 `TypeRef` levels of the standard query, decoding the standard introspection result gives
+    back the schema's normal form `Spec.norm s` — every type with kind, name, description, fields (arguments, type
+    references, deprecation reasons), input fields, interfaces, enum values, union members; every directive with
+    locations and arguments; the three root types. Nothing missing, nothing invented; `norm` spells out the only
+    things not observable (listing order by name, enum internal values, defaults as their printed text). -/
+theorem introspect_lossless : LosslessStatement := by
+  intro s h
+  simp only [DepthOk, Bool.and_eq_true, List.all_eq_true] at h
+  obtain ⟨ht, hd⟩ := h
+  have htypes : (sortBy (·.name) s.types).map (typeOf ∘ fullType s true) = (sortBy (·.name) s.types).map (normType s) := by
+    apply List.map_congr_left
+    intro t hm
+    have hm' : t ∈ s.types := (sortBy_perm _ _).mem_iff.mp hm
+    have := ht t hm'
+    exact typeOf_fullType s t (by simpa [List.all_eq_true] using this.1) this.2
+  have hdirs : (sortBy (·.name) s.directives).map (directiveOf ∘ directiveJ s) = (sortBy (·.name) s.directives).map (normDirective s) := by
+    apply List.map_congr_left
+    intro d hm
+    exact directiveOf_directiveJ s d (hd d ((sortBy_perm _ _).mem_iff.mp hm))
+  have hq : ∀ o : Option String, rootOf (rootRef o) = o := by
+    intro o; cases o <;> simp [rootOf, rootRef, J.strD, J.get?, J.asStr?]
+  simp [schemaOfIntrospection, introspect, schemaJ, norm, J.getD, J.get?, J.arrD, J.asArr?, List.map_map, htypes, hdirs, hq]
+
+/-- non-vacuity: a description with nested type references satisfies `DepthOk`, and a 9-level one does not -/
+example : DepthOk { types := [ { kind := .object, name := "Query", fields := [{ name := "f", type := .nonNull (.list (.named "Int")), args := [{ name := "a", type := .list (.named "Int") }] }] } ] } = true := by
+  decide
 
 /-- non-vacuity of the depth hypothesis and of the decoder on a concrete description -/
 example : tyOfRef typeRefLevels (typeRef { types := [{ kind := .scalar, name := "Int" }] } typeRefLevels (.nonNull (.list (.nonNull (.named "Int")))))
